@@ -26,8 +26,10 @@ MAX_WORLDS = 1 << 12
 RULE = ("Case = (program AST from pbt.gen.programs.programs(allow_nonground_query=False, allow_neg_query=False): "
         "probabilistic facts, annotated disjunctions with/without bodies, probabilistic rules, rules (also with a "
         "disjunctive body), stratified negation, positive recursion, 1-3 ground queries, 0-2 evidence atoms; kept only when the reference "
-        "P(evidence) >= 0.05, <= 10 relevant choices and no undefined atoms; for half of the programs the evidence atoms are "
-        "instead drawn among the ground atoms with reference marginal strictly between 0 and 1; thinning: all "
+        "P(evidence) >= 0.05, <= 10 relevant choices and no undefined atoms; for a third of the programs the evidence atoms "
+        "are instead drawn among the ground atoms with reference marginal strictly between 0 and 1; another third "
+        "has an annotated disjunction with 3-4 heads, two or three of which get negative evidence (directly or through "
+        "an alias d :- head) while the other heads are queried; thinning: all "
         "non-trivial programs with P(evidence) < 1, 1/4 of the other non-trivial ones, 1/24 of the trivial ones), "
         "propagate_evidence in {False, True}, n accepted samples with n = N * min(1, 2 P(evidence)) rounded down to a "
         "multiple of 100, N = 1500 (quick) / 10000 (thorough) (the expected number of grounding attempts is then <= "
@@ -41,8 +43,8 @@ RULE = ("Case = (program AST from pbt.gen.programs.programs(allow_nonground_quer
         "'% Probability' equals, to 1e-6 relative, the product over sampled probabilistic facts of p (true) / 1-p "
         "(false) and over sampled AD instances of p_chosen, or 1 - sum(p of the examined heads) when no head was "
         "chosen; choices fixed by evidence propagation (propagate_evidence=True) are not choices made and contribute "
-        "1; samples in which an AD instance has a head fixed FALSE by propagation are not checked for (b).  Per "
-        "program: |frequency - reference conditional probability| <= eps = sqrt(ln(2/1e-9)/(2n)) (0.0845 for n=1500, "
+        "1, except that a head fixed FALSE by propagation counts as an examined head in the residual 1 - sum(p) of "
+        "its AD instance.  Per program: |frequency - reference conditional probability| <= eps = sqrt(ln(2/1e-9)/(2n)) (0.0845 for n=1500, "
         "0.0327 for n=10000, 0.33 for the smallest n=100 at P(evidence)=0.05 in the quick tier) for every query, for the sample loop and for estimate(model, n); more than 4n/P(evidence)"
         "+2000 grounding attempts for n accepted samples is reported as non-terminating rejection.  Non-trivial: >= 2 "
         "relevant choices and a query with reference conditional probability in (0.1, 0.9).  Distinct = distinct "
@@ -375,7 +377,8 @@ def check(case):
                     else:
                         m = None
                 if any(f and not v for k, v, f in heads):
-                    check_prob = False
+                    feats.add("pe:AD head fixed false" + (" x2+" if sum(1 for k, v, f in heads if f and not v) >= 2
+                                                           else ""))
                 if m is not None:
                     cons &= m
         if unmapped is not None:
@@ -400,8 +403,6 @@ def check(case):
                                     "probabilities of the choices made is %r; choices %s groups %s forced %s\n%s" % (
                                         tag, si_, printed, expected, _show(facts), _show(groups), _show(forced), src),
                                     sig="%s|probability-mismatch" % tag))
-        else:
-            feats.add("pe:probability-unchecked(forced-false AD head)")
 
     # ---- frequencies of the sample loop
     for k in qkeys:
@@ -497,6 +498,56 @@ def _programs_with_informative_evidence(draw):
     return prog + es
 
 
+@st.composite
+def _programs_with_ad_evidence(draw):
+    """An annotated disjunction with 3-4 heads over fresh atoms x0..x3 (optionally with a body), aliases
+    d_i :- x_i (evidence on an alias is propagated to the head), 2-3 pieces of evidence of which at least two are
+    negative and hit different heads of that AD (directly or through an alias), queries on the other heads;
+    optionally on top of a programs() program without evidence."""
+    base = []
+    if draw(st.integers(0, 2)) == 0:
+        base = [s for s in draw(gp.programs(allow_nonground_query=False, allow_neg_query=False,
+                                            allow_evidence=False, max_preds=2))]
+    nh = draw(st.integers(3, 4))
+    left = 10
+    probs = []
+    for i in range(nh):
+        hi = left - (nh - 1 - i)
+        k = draw(st.integers(1, max(1, min(hi, 5))))
+        probs.append(k)
+        left -= k
+    if draw(st.booleans()):
+        probs[-1] += left  # exhaustive
+    heads = [["0.%d" % k if k < 10 else "1.0", ["x%d" % i, []]] for i, k in enumerate(probs)]
+    block = []
+    body = []
+    if draw(st.integers(0, 2)) == 0:
+        block.append(["pfact", draw(st.sampled_from(["0.5", "0.8", "1.0"])), ["g", []]])
+        body = [[False, "g", []]]
+    block.append(["ad", heads, body])
+    order = list(draw(st.permutations(list(range(nh)))))
+    nneg = draw(st.integers(2, nh - 1))
+    evid = []
+    for i in order[:nneg]:
+        if draw(st.integers(0, 2)) == 0:
+            block.append(["rule", ["d%d" % i, []], [[False, "x%d" % i, []]]])
+            evid.append(["evidence", ["d%d" % i, []], False, draw(st.integers(0, 1))])
+        else:
+            evid.append(["evidence", ["x%d" % i, []], False, draw(st.integers(0, 1))])
+    rest = order[nneg:]
+    qs = [["query", ["x%d" % i, []], False] for i in rest]
+    if draw(st.booleans()):
+        block.append(["pfact", draw(st.sampled_from(["0.3", "0.5", "0.7"])), ["f", []]])
+        block.append(["rule", ["y", []], [[False, "x%d" % rest[0], []], [False, "f", []]]])
+        qs.append(["query", ["y", []], False])
+        if draw(st.integers(0, 2)) == 0:
+            evid.append(["evidence", ["y", []], draw(st.booleans()), 1])
+    tail = qs + evid
+    if draw(st.booleans()):
+        tail = list(draw(st.permutations(tail)))
+    return base + block + tail
+
+
 def samples_for(tier, evidence_weight):
     """Number of accepted samples: N(tier) when P(evidence) >= 0.5, otherwise N * 2 * P(evidence) (so that the
     expected number of grounding attempts, n / P(evidence), stays <= 2N), rounded down to a multiple of 100."""
@@ -508,7 +559,7 @@ def samples_for(tier, evidence_weight):
 @st.composite
 def _cases(draw):
     prog = draw(st.one_of(gp.programs(allow_nonground_query=False, allow_neg_query=False),
-                          _programs_with_informative_evidence()))
+                          _programs_with_informative_evidence(), _programs_with_ad_evidence()))
     ref = reference(prog)
     assume(not isinstance(ref, str))
     assume(_keep(prog, ref))
